@@ -468,4 +468,14 @@ def Op.mintBurnDenom : Op → Option Denom
   | .wburn _ d _ _ => some d
   | _ => none
 
+/-- A chain export followed by an import of the token factory's genesis (x/tokenfactory/keeper/genesis.go): for every exported
+denomination `InitGenesis` runs `createDenomAfterValidation`, which writes the DEFAULT bank metadata again — a record the
+admin had set is lost — and then restores the exported authority metadata.  Balances and supply belong to the bank's own
+genesis.  Not an `Op` of the history machine (the property quantifies over messages); the driver applies it for the
+harness's `reimport` lines, and Props/C16.lean states what it keeps. -/
+def reimport (st : St) : St :=
+  -- exported = registered with the factory: factory-shaped and known to the bank (a created denomination always has bank
+  -- metadata, and nothing else can give a factory-shaped name one: `wasm_setmeta_key_is_checked_denom`)
+  { st with dmeta := fun d => if (deconstruct d).isSome && (st.dmeta d).isSome then some 0 else st.dmeta d }
+
 end Paloma.TokenFactory
